@@ -147,3 +147,131 @@ Proof.
   - rewrite count_kinds_total. unfold classify_eigenvalues_stability. apply map_length.
   - apply verdict_iff_count.
 Qed.
+
+(* ================================================================== *)
+(* Dynamic identities built from the token vector (_create_dynid_matrices) *)
+
+Lemma tok_eqb_eq (a b : token) : tok_eqb a b = true <-> a = b.
+Proof.
+  unfold tok_eqb. destruct a as [qa ka], b as [qb kb]; simpl. rewrite andb_true_iff, Nat.eqb_eq, Z.eqb_eq.
+  split; [intros [-> ->]; reflexivity | intro H; inversion H; auto].
+Qed.
+
+Lemma index_tok_some t l j : index_tok t l = Some j -> nth_error l j = Some t.
+Proof.
+  revert j. induction l as [|x l IH]; simpl; intros j H; [discriminate|].
+  destruct (tok_eqb t x) eqn:E.
+  - inversion H; subst. apply tok_eqb_eq in E. subst. reflexivity.
+  - destruct (index_tok t l) as [j'|]; simpl in H; [|discriminate]. inversion H; subst. simpl. apply IH. reflexivity.
+Qed.
+
+Lemma index_tok_none t l : index_tok t l = None -> ~ In t l.
+Proof.
+  induction l as [|x l IH]; simpl; intros H; [tauto|].
+  destruct (tok_eqb t x) eqn:E; [discriminate|].
+  destruct (index_tok t l); simpl in H; [discriminate|].
+  intros [->|I]; [|apply IH; auto].
+  assert (tok_eqb t t = true) by (apply tok_eqb_eq; reflexivity). congruence.
+Qed.
+
+Lemma index_tok_in t l : In t l -> exists j, index_tok t l = Some j.
+Proof.
+  intro I. destruct (index_tok t l) eqn:E; [eauto|]. exfalso. apply (index_tok_none _ _ E I).
+Qed.
+
+(* a row of the dynamic identities: token (q,k) at position i is not at the maximum shift of q,
+   and position j holds the same quantity one period later *)
+Definition dynid_pair_ok (vec : list token) (p : nat * nat) : Prop :=
+  exists q k, nth_error vec (fst p) = Some (q, k) /\ k <> max_shift q vec /\
+              nth_error vec (snd p) = Some (q, dynid_next_shift k).
+
+(* positions (in order) of the tokens that are not at their quantity's maximum shift *)
+Fixpoint nonmax_positions (vec rest : list token) (i : nat) : list nat :=
+  match rest with
+  | [] => []
+  | t :: r => if (snd t =? max_shift (fst t) vec)%Z then nonmax_positions vec r (S i)
+              else i :: nonmax_positions vec r (S i)
+  end.
+
+Lemma dynid_pairs_from_spec vec rest : forall pre i ps,
+  vec = pre ++ rest -> length pre = i -> dynid_pairs_from vec rest i = Some ps ->
+  Forall (dynid_pair_ok vec) ps /\ map fst ps = nonmax_positions vec rest i.
+Proof.
+  induction rest as [|t r IH]; intros pre i ps Hv Hl H; simpl in *.
+  - inversion H; subst. split; constructor.
+  - assert (Hv' : vec = (pre ++ [t]) ++ r) by (rewrite <- app_assoc; exact Hv).
+    assert (Hl' : length (pre ++ [t]) = S i) by (rewrite app_length; simpl; lia).
+    destruct (snd t =? max_shift (fst t) vec)%Z eqn:E.
+    + apply (IH _ _ _ Hv' Hl' H).
+    + destruct (index_tok (fst t, dynid_next_shift (snd t)) vec) as [j|] eqn:Ej; [|discriminate].
+      destruct (dynid_pairs_from vec r (S i)) as [ps'|] eqn:Er; [|discriminate].
+      inversion H; subst ps. destruct (IH _ _ _ Hv' Hl' Er) as [F M].
+      split; [constructor; auto | simpl; f_equal; auto].
+      exists (fst t), (snd t). simpl. repeat split.
+      * rewrite Hv. rewrite nth_error_app2 by lia. rewrite Hl, Nat.sub_diag. destruct t; reflexivity.
+      * apply Z.eqb_neq. exact E.
+      * apply index_tok_some. exact Ej.
+Qed.
+
+(* dense rows as the code writes them, applied to integer vectors *)
+Definition dotZ (a b : list Z) : Z := fold_left (fun acc p => (acc + fst p * snd p)%Z) (combine a b) 0%Z.
+
+Lemma fold_dot_acc (l : list (Z * Z)) (z : Z) :
+  fold_left (fun acc p => (acc + fst p * snd p)%Z) l z = (z + fold_left (fun acc p => (acc + fst p * snd p)%Z) l 0)%Z.
+Proof.
+  revert z. induction l as [|p l IH]; intro z; simpl; [lia|].
+  rewrite IH. rewrite (IH (fst p * snd p)%Z). lia.
+Qed.
+
+Lemma dot_unit_seq (v : Z) (i : nat) : forall (n s : nat) (x : list Z), length x = n ->
+  dotZ (map (fun c => if Nat.eqb c i then v else 0%Z) (seq s n)) x
+  = if (s <=? i)%nat && (i <? s + n)%nat then (v * nth (i - s) x 0)%Z else 0%Z.
+Proof.
+  unfold dotZ. induction n as [|n IH]; intros s x Hx.
+  - cbn [seq map combine fold_left]. destruct (s <=? i)%nat eqn:A; cbn [andb]; auto.
+    destruct (Nat.ltb_spec i (s + 0)); auto. apply Nat.leb_le in A. lia.
+  - destruct x as [|x0 x]; [discriminate|]. cbn [length] in Hx. injection Hx as Hx.
+    cbn [seq map combine fold_left fst snd].
+    rewrite fold_dot_acc. rewrite (IH (S s) x Hx).
+    destruct (Nat.eqb_spec s i) as [e|ne].
+    + subst i. rewrite Nat.leb_refl. cbn [andb].
+      destruct (Nat.leb_spec (S s) s); [lia|]. cbn [andb].
+      destruct (Nat.ltb_spec s (s + S n)); [|lia]. rewrite Nat.sub_diag. cbn [nth]. lia.
+    + destruct (Nat.leb_spec s i), (Nat.leb_spec (S s) i); cbn [andb]; try lia.
+      destruct (Nat.ltb_spec i (S s + n)), (Nat.ltb_spec i (s + S n)); try lia.
+      replace (i - s)%nat with (S (i - S s)) by lia. cbn [nth]. lia.
+Qed.
+
+Lemma dot_unit_row n i v x : length x = n -> (i < n)%nat -> dotZ (unit_row n i v) x = (v * nth i x 0)%Z.
+Proof.
+  intros Hx Hi. unfold unit_row. rewrite (dot_unit_seq v i n 0 x Hx). cbn [Nat.leb andb Nat.add].
+  destruct (Nat.ltb_spec i n); [|lia]. rewrite Nat.sub_0_r. reflexivity.
+Qed.
+
+(* Theorem (dynid_rows): when _create_dynid_matrices succeeds, there is exactly one row per token that is not
+   at its quantity's maximum shift, in vector order; row r pairs position i (token (q,k)) with position j
+   (token (q,k+1)); and as linear forms  dynid_A[r] . x + dynid_B[r] . y = x[i] - y[j]: the identity
+   "x{k} today equals x{k+1} of the previous period's vector" *)
+Theorem dynid_rows vec ps : dynid_pairs vec = Some ps ->
+  map fst ps = nonmax_positions vec vec 0 /\
+  Forall (dynid_pair_ok vec) ps /\
+  forall r i j (x y : list Z), nth_error ps r = Some (i, j) ->
+    length x = length vec -> length y = length vec ->
+    (dotZ (nth r (dynid_A vec ps) []) x + dotZ (nth r (dynid_B vec ps) []) y = nth i x 0 - nth j y 0)%Z.
+Proof.
+  intro H. destruct (dynid_pairs_from_spec vec vec [] 0 ps eq_refl eq_refl H) as [F M].
+  split; [exact M|]. split; [exact F|].
+  intros r i j x y Hr Hx Hy.
+  assert (Hp : dynid_pair_ok vec (i, j)).
+  { rewrite Forall_forall in F. apply F. eapply nth_error_In; eauto. }
+  destruct Hp as (q & k & Hi & _ & Hj). simpl in Hi, Hj.
+  assert (Li : (i < length vec)%nat) by (apply nth_error_Some; congruence).
+  assert (Lj : (j < length vec)%nat) by (apply nth_error_Some; congruence).
+  unfold dynid_A, dynid_B.
+  assert (EA : nth r (map (fun p => unit_row (length vec) (fst p) dynid_A_entry) ps) [] = unit_row (length vec) i dynid_A_entry).
+  { apply nth_error_nth. rewrite nth_error_map, Hr. reflexivity. }
+  assert (EB : nth r (map (fun p => unit_row (length vec) (snd p) dynid_B_entry) ps) [] = unit_row (length vec) j dynid_B_entry).
+  { apply nth_error_nth. rewrite nth_error_map, Hr. reflexivity. }
+  rewrite EA, EB, (dot_unit_row _ _ _ _ Hx Li), (dot_unit_row _ _ _ _ Hy Lj).
+  unfold dynid_A_entry, dynid_B_entry. lia.
+Qed.
